@@ -302,9 +302,12 @@ def run(ctx):
                     _pre, atom, e = r["parts"][0]
                     aqt = infos[atom].quantity_type
                     abase = db.GetBaseUnit(aqt)
-                    for route, fn in (
-                        ("UnitDatabase.Convert(qt,[(u,e)],[(base,e)],x)", lambda: db.Convert(aqt, [(atom, e)], [(abase, e)], 2.0)),
-                        ("derived Scalar.GetValue([(base,e)])", lambda: ((Scalar(1.0, atom) ** abs(e)) * 2.0 if e > 0 else 2.0 / (Scalar(1.0, atom) ** abs(e))).GetValue([(abase, e)])),
+                    for route, amount, fn in (
+                        ("UnitDatabase.Convert(qt,[(u,e)],[(base,e)],x)", 2.0, lambda: db.Convert(aqt, [(atom, e)], [(abase, e)], 2.0)),
+                        ("derived Scalar.GetValue([(base,e)])", 2.0, lambda: ((Scalar(1.0, atom) ** abs(e)) * 2.0 if e > 0 else 2.0 / (Scalar(1.0, atom) ** abs(e))).GetValue([(abase, e)])),
+                        # a negative amount of the same unit is the same factor away from its base amount
+                        ("UnitDatabase.Convert(qt,[(u,e)],[(base,e)],-x)", -3.0, lambda: db.Convert(aqt, [(atom, e)], [(abase, e)], -3.0)),
+                        ("derived Scalar.GetValue([(base,e)]) of a negative amount", -3.0, lambda: ((Scalar(1.0, atom) ** abs(e)) * -3.0 if e > 0 else -3.0 / (Scalar(1.0, atom) ** abs(e))).GetValue([(abase, e)])),
                     ):  # fmt: skip
                         ctx.ev()
                         ctx.count("single-component rows read through the (unit, exponent) overload")
@@ -313,7 +316,7 @@ def run(ctx):
                         except Exception as ex:
                             ctx.violation("route-raised:%s" % route, {"row": r["unit"], "route": route, "error": repr(ex)[:200]}, replay={"row": r["unit"]})
                             continue
-                        wv = 2.0 * r["composed"]
+                        wv = amount * r["composed"]
                         if not abs(gv - wv) <= 1e-11 * abs(wv):
                             ctx.violation("row-factor-differs-by-route:%s" % route, {"row": r["unit"], "route": route, "got": gv, "product_of_component_factors": wv}, replay={"row": r["unit"]})
                 # the row's factor as every public conversion route tells it (floats, lists, tuples, arrays, value objects)
